@@ -51,7 +51,21 @@ PROPS: Dict[str, Dict[str, Any]] = {
             "quick_n": 6000, "thorough_n": 100000, "fields": ["out", "trace"]},
     "C02": {"theorems": ["runPreds_spec", "runAPreds_spec", "runAPreds_all_awaited", "contPreds_spec", "runProcs_spec",
                          "C02_gate_exact", "C02_lookalikes", "C02_accept_iff", "C02_reject", "C02_gate_rej_kinds",
-                         "C02_sync_guard", "C02_equals_accept_iff", "C02_equals_type_err", "C02_none"],
+                         "C02_sync_guard", "C02_equals_accept_iff", "C02_equals_type_err", "C02_none",
+                         "src_scalar_sync", "src_scalar_async", "src_scalar_simple", "src_scalar_init",
+                         "src_scalar_fastpath_consistent", "scalarSync_eq", "scalarAsync_eq", "gate_exec", "procs_exec",
+                         "predsSync_exec", "predsAsync_exec", "compFold_sync", "compFold_async", "forFold_procs"],
+            "modules": ["KodaModel.Properties.C02", "KodaModel.Properties.C02Src"],
+            "level_note": "the scalar pipeline is tied to the source twice: (1) TRANSLATOR - harness/pysrc.py rewrites "
+                          "Generated/ScalarSrc.lean from the AST of _ToTupleStandardValidator._validate_to_tuple, "
+                          "_validate_to_tuple_async and the bare-validator fast path (_internal.py: the code behind all ten "
+                          "scalar validators) on every run; src_scalar_sync / src_scalar_async / src_scalar_simple prove that "
+                          "interpreting the translated statements (KodaModel/PyImp.lean: assignment, if/elif, the for loop "
+                          "over the preprocessors, the list comprehensions over the predicates, await, early return) is the "
+                          "model's scalarStep for every configuration and input - outcome, payload, error, trace, exceptions; "
+                          "(2) the correspondence stream.  The C02_* theorems state the property about scalarStep.  Trusted: "
+                          "the translator, the interpreter's reading of each construct, and the model's meaning of calling a "
+                          "coercer / processor / predicate",
             "stream": "core", "opts": {"salt": "c02", "gen": ["streams", "gen_scalar_case"]},
             "quick_n": 8000, "thorough_n": 150000, "fields": ["out", "trace"]},
     "C18": {"theorems": ["C18_singleton_list_valid", "C18_singleton_list_invalid", "C18_singleton_utuple_valid",
